@@ -86,6 +86,7 @@ const maxCalls = 48
 // fails or succeeds as the inputs say.
 type hGetter struct {
 	instant    bool // every call takes no time (long-run harness)
+	cut        int  // > 0: only histories of at most cut calls are examined (later calls are assumed away)
 	calls      int
 	start, end [maxCalls]int64
 	okAt       int
@@ -97,6 +98,9 @@ var errGet = errors.New("get failed")
 
 func (g *hGetter) Get(url string) (map[string][]string, []byte, error) {
 	i := g.calls
+	if g.cut > 0 {
+		vp.Assume(i < g.cut)
+	}
 	g.calls++
 	if i < maxCalls {
 		g.start[i] = vp.Now()
@@ -206,6 +210,36 @@ func H20d_ManyAttempts() {
 		wait := g.start[i] - g.end[i-1]
 		vp.Assert("wait-not-longer-than-max-retry-delay", wait <= maxDelay)
 		vp.Assert("no-busy-loop", wait > 0)
+	}
+}
+
+// H20f: a maximum retry delay of zero (the quantifier's grid includes it). "Never in a busy loop"
+// cannot be met then (a wait can be neither longer than 0 nor positive), but the cap is unambiguous:
+// no wait may exceed the configured maximum, i.e. every wait is 0; a first success is still returned
+// intact. Only the first 5 attempts are examined (with waits of 0 the number of attempts is bounded
+// by the duration of the calls alone; when the deadline and the 0-delay timer are ready together Go
+// picks at random).
+func H20f_ZeroMaxDelay() {
+	const K = 5
+	vp.Unwind(4 * K)
+	timeout := vp.I64("timeout")
+	vp.Assume(timeout >= 0)
+	vp.Assume(timeout <= int64(100*time.Hour))
+	g := &hGetter{okAt: -1, cut: K}
+	r := &RetryHTTPSGetter{Timeout: time.Duration(timeout), MaxRetryDelay: 0, Getter: g}
+	header, body, err := r.Get("https://example/collateral")
+	vp.Assert("at-least-one-attempt", g.calls >= 1)
+	vp.Reach("zero-max-delay-retry-then-success", vp.And(err == nil, g.calls > 2))
+	vp.Reach("zero-max-delay-gives-up", vp.And(err != nil, g.calls > 1))
+	if err == nil {
+		vp.Assert("success-is-the-last-call", g.okAt == g.calls-1)
+		vp.Assert("first-success-returned-intact", vp.And(vp.SameRef(header, g.header), vp.SameRef(body, g.body)))
+	} else {
+		vp.Assert("error-only-if-no-call-succeeded", g.okAt == -1)
+	}
+	for i := 1; i < g.calls && i < maxCalls; i++ {
+		wait := g.start[i] - g.end[i-1]
+		vp.Assert("wait-not-longer-than-max-retry-delay", wait <= 0)
 	}
 }
 
